@@ -3,9 +3,9 @@
    fans, concurrent starts, CLI-driven histories) is followed by a few real control cycles; nothing but the
    controller touches the fan's files and all writes succeed, so the controller's third-party counter
    (FanControllerStatistics.UnexpectedPwmValueCount) must still be 0 -- provided C05's standing assumption
-   holds for the start: the device reads back what the controller's PWM map says ([reads_back]: every output
-   of the map is a value the device shows when it is written; the start-up driver also generates configured /
-   stored maps that contradict the device, those starts are not judged).
+   holds for the start: the device reads back what the PWM map says that the MODEL expects the controller to use
+   after this start ([reads_back]: every output of that map is a value the device shows when it is written; the
+   start-up driver also generates configured / stored maps that contradict the device, those starts are not judged).
    Same case type as Drv/Startup.v (field o_c05); no model comparison here: the start-up actions are
    compared by C15, the regulation cycles by the ctrl driver of C05. *)
 From F2G Require Export Drv.Startup.
@@ -14,48 +14,59 @@ From Coq Require Import Lia.
 (* the device shows every output of the map when it is written *)
 Definition reads_back (cp : caps) (m : pmap) : bool := forallb (fun kv => dev cp (snd kv) =? snd kv) m.
 
-Fixpoint zip3 {A B C} (a : list A) (b : list B) (c : list C) : list (A * B * C) :=
-  match a, b, c with
-  | x :: a', y :: b', z :: c' => (x, y, z) :: zip3 a' b' c'
-  | _, _, _ => []
+(* per command: the device and the PWM map the MODEL expects the controller to regulate with after that start
+   (the configured map, the stored one, or the one the start itself measures), and what was observed *)
+Definition annot05 := (option (caps * pmap) * (bool * Z * Z))%type.
+
+Fixpoint expect (fl : fleet) (d : db) (cs : list cmd) (xs : list (bool * Z * Z)) : list annot05 :=
+  match cs, xs with
+  | c :: cr, x :: xr =>
+      let e := match c with
+               | Start id =>
+                   match fl id with
+                   | Some (f, cp) => match start_map f cp (d id) with Some m => Some (cp, m) | None => None end
+                   | None => None
+                   end
+               | _ => None
+               end in
+      (e, x) :: expect fl (step fl d c) cr xr
+  | _, _ => []
   end.
 
-(* is this step a start that C05 speaks about: undisturbed, and the device reads back the controller's map *)
-Definition judged (fl : fleet) (s : cmd * ostep * (bool * Z * Z)) : bool :=
-  let '(c, o, (disturbed, _, _)) := s in
-  match c with
-  | Start id =>
-      match fl id, os_final o with
-      | Some (_, cp), Some m => negb disturbed && reads_back cp m
-      | _, _ => false
-      end
-  | _ => false
+(* is this step a start that C05 speaks about: undisturbed, and the device reads back the expected map.
+   (Judging by the controller's OWN final map would excuse a start whose map was corrupted on the way.) *)
+Definition judged (s : annot05) : bool :=
+  match s with
+  | (Some (cp, m), (disturbed, _, _)) => negb disturbed && reads_back cp m
+  | (None, _) => false
   end.
 
-Definition count_of (s : cmd * ostep * (bool * Z * Z)) : Z := let '(_, _, (_, _, n)) := s in n.
+Definition count_of (s : annot05) : Z := let '(_, (_, _, n)) := s in n.
 
-Definition step_c05b (fl : fleet) (s : cmd * ostep * (bool * Z * Z)) : bool :=
-  implb (judged fl s) (count_of s =? 0).
+Definition step_c05b (s : annot05) : bool := implb (judged s) (count_of s =? 0).
 
-Definition holdsb (c : case) : bool :=
-  forallb (step_c05b (fleet_of (c_fans c))) (zip3 (c_cmds c) (o_steps c) (o_c05 c)).
+Definition steps05 (c : case) : list annot05 :=
+  expect (fleet_of (c_fans c)) (db_of (c_db0 c)) (c_cmds c) (o_c05 c).
+
+Definition holdsb (c : case) : bool := forallb step_c05b (steps05 c).
 
 (* no false count: every judged start shows a zero counter after its control cycles *)
 Definition Holds (c : case) : Prop :=
-  forall s, In s (zip3 (c_cmds c) (o_steps c) (o_c05 c)) -> judged (fleet_of (c_fans c)) s = true -> count_of s = 0.
+  forall s, In s (steps05 c) -> judged s = true -> count_of s = 0.
 
 Theorem holdsb_spec c : holdsb c = true <-> Holds c.
 Proof.
   unfold holdsb, Holds, step_c05b. rewrite forallb_forall. split.
   - intros H s Hin J. specialize (H s Hin). rewrite J in H. cbn in H. now apply Z.eqb_eq.
-  - intros H s Hin. destruct (judged (fleet_of (c_fans c)) s) eqn:J; [|reflexivity].
+  - intros H s Hin. destruct (judged s) eqn:J; [|reflexivity].
     cbn. apply Z.eqb_eq. now apply H.
 Qed.
 
-(* the judged class is not empty: a start whose configured map matches an identity device is judged *)
+(* the judged class is not empty: the restart of a fan whose stored step map matches its quantising device is judged *)
 Example judged_nonempty :
-  judged (fun _ => Some (mkFanCfg HwMon None None None true, mkCaps true true []))
-         (Start 1, mkOStep [Regulate] true true (Some [(0, 0); (255, 255)]), (false, 3, 0)) = true.
+  let fl : fleet := fun _ => Some (mkFanCfg HwMon None None None true, mkCaps true true [(1, 0); (3, 2)]) in
+  let d : db := fun _ => mkEntry true (Some [(0, 0); (1, 0); (2, 2); (3, 2)]) in
+  map judged (expect fl d [Start 1] [(false, 3, 0)]) = [true].
 Proof. reflexivity. Qed.
 
 Definition mismatch (c : case) : bool := false.
